@@ -483,6 +483,8 @@ func parseIntLit(s string) string {
 // stmt := lhs '=' expr | lhs '+=' expr | lhs '++' | 'forall' x 'in' '[' lo ',' hi ')' ':' m '[' x ']' '=' expr
 type GhostStmt struct {
 	Assume  Expr // `assume e`: a trusted fact about the environment (listed in the trusted base)
+	Assert  Expr // `assert [name] e`: an obligation at this point
+	AssertName string
 	Guard   Expr // optional: `when cond`
 	LHS     Expr
 	RHS     Expr
@@ -512,6 +514,20 @@ func ParseGhostStmts(src string) (out []GhostStmt, err error) {
 			g.Assume = p.expr()
 			if p.peek().kind != "eof" {
 				panic(fmt.Sprintf("ghost assume: trailing input in %q", part))
+			}
+			out = append(out, g)
+			continue
+		}
+		if p.isId("assert") {
+			p.next()
+			if p.peek().kind == "op" && p.peek().s == "[" {
+				p.next()
+				g.AssertName = p.next().s
+				p.expectOp("]")
+			}
+			g.Assert = p.expr()
+			if p.peek().kind != "eof" {
+				panic(fmt.Sprintf("ghost assert: trailing input in %q", part))
 			}
 			out = append(out, g)
 			continue
